@@ -8,6 +8,7 @@ import (
 
 	"golang.org/x/tools/go/ssa"
 
+	"manticheck/internal/prove"
 	"manticheck/internal/report"
 )
 
@@ -368,4 +369,130 @@ func c14Rewrites(bad []string) bool {
 		}
 	}
 	return false
+}
+
+// C14 extension `R6c-format-data` (added after an independently seeded change —
+// ToString splicing the hex data and the distinguished name into the Sprintf
+// FORMAT — was missed once the unreadable format became NOT DECIDED): a
+// free-form string must be an OPERAND of the formatting call, never part of
+// its format: a '%' in the distinguished name would be read as a verb. The
+// rule looks at the format operand of every fmt *printf-family call in the
+// printers of DNWithBinary: constants, concatenations and φ of constants are
+// fine; text produced by encoding/hex or strconv (no '%' possible) is fine; a
+// string-typed struct field (or parameter) spliced in is reported; anything
+// else is NOT DECIDED.
+func init() {
+	ck := registry["C14"]
+	if ck == nil {
+		return
+	}
+	orig := ck.Run
+	ck.Run = func(c *Ctx) {
+		orig(c)
+		c14FormatData(c)
+		c.R.Explanation += " Extension R6c FORMAT-DATA: in the DNWithBinary printers the format operand of every fmt formatting call is built from constants and %-free producers (encoding/hex, strconv) only — a free-form string field is an operand, never part of the format."
+	}
+}
+
+func c14FormatData(c *Ctx) {
+	const rule = "R6c-format-data"
+	p, r := c.P, c.R
+	n := 0
+	for _, mname := range []string{"ToString", "String"} {
+		fn := p.Func(c14Pkg, "DNWithBinary", mname)
+		if fn == nil || fn.Blocks == nil {
+			continue
+		}
+		fns := append([]*ssa.Function{fn}, fn.AnonFuncs...)
+		for _, f := range fns {
+			for _, b := range f.Blocks {
+				for _, in := range b.Instrs {
+					call, ok := in.(*ssa.Call)
+					if !ok {
+						continue
+					}
+					sn := prove.StaticName(call.Common())
+					fmtIdx := -1
+					switch sn {
+					case "fmt.Sprintf", "fmt.Errorf", "fmt.Printf":
+						fmtIdx = 0
+					case "fmt.Fprintf", "fmt.Appendf":
+						fmtIdx = 1
+					}
+					if fmtIdx < 0 || fmtIdx >= len(call.Common().Args) {
+						continue
+					}
+					n++
+					construct := fmt.Sprintf("%s.(*DNWithBinary).%s: format of %s #%d holds no free-form data", c14Pkg, mname, sn, n)
+					var free, unread []string
+					seen := map[ssa.Value]bool{}
+					var walk func(v ssa.Value)
+					walk = func(v ssa.Value) {
+						if v == nil || seen[v] {
+							return
+						}
+						seen[v] = true
+						switch x := v.(type) {
+						case *ssa.Const:
+						case *ssa.BinOp:
+							walk(x.X)
+							walk(x.Y)
+						case *ssa.Phi:
+							for _, e := range x.Edges {
+								walk(e)
+							}
+						case *ssa.ChangeType:
+							walk(x.X)
+						case *ssa.Parameter:
+							if bt, ok := x.Type().Underlying().(*types.Basic); ok && bt.Info()&types.IsString != 0 {
+								free = append(free, "parameter "+x.Name())
+							} else {
+								unread = append(unread, x.Name())
+							}
+						case *ssa.UnOp:
+							if fa, ok := x.X.(*ssa.FieldAddr); ok {
+								if stt, ok := derefType(fa.X.Type()).Underlying().(*types.Struct); ok {
+									if bt, ok := x.Type().Underlying().(*types.Basic); ok && bt.Info()&types.IsString != 0 {
+										free = append(free, "field "+stt.Field(fa.Field).Name())
+										return
+									}
+								}
+							}
+							if g, ok := x.X.(*ssa.Global); ok {
+								unread = append(unread, "package variable "+g.Name())
+								return
+							}
+							unread = append(unread, x.String())
+						case *ssa.Call:
+							cn := prove.StaticName(x.Common())
+							switch {
+							case cn == "encoding/hex.EncodeToString", strings.HasPrefix(cn, "strconv.Itoa"), strings.HasPrefix(cn, "strconv.Format"), strings.HasPrefix(cn, "strconv.Quote"):
+								// digits / hex digits / quoted text without '%'? Quote keeps '%': not accepted
+								if strings.HasPrefix(cn, "strconv.Quote") {
+									unread = append(unread, cn)
+								}
+							default:
+								unread = append(unread, "result of "+cn)
+							}
+						default:
+							unread = append(unread, v.String())
+						}
+					}
+					walk(call.Common().Args[fmtIdx])
+					pos := p.Rel(call.Pos())
+					switch {
+					case len(free) > 0:
+						r.Fail(rule, construct, pos, "the format string is built from "+strings.Join(free, ", ")+": a '%' in that text is interpreted as a formatting verb, so the printed form is not the text Parse splits")
+					case len(unread) > 0:
+						c.NotDecided(rule, construct, pos, "the format string includes "+strings.Join(unread, ", ")+", whose contents this rule does not read")
+					default:
+						r.OK(rule, construct, pos, "format built from constants and %-free producers only")
+					}
+				}
+			}
+		}
+	}
+	if n == 0 {
+		c.NotDecided(rule, c14Pkg+".(*DNWithBinary).ToString: format holds no free-form data", "", "no fmt formatting call in the printers")
+	}
 }
